@@ -1,4 +1,4 @@
-// GENERATED on every run by vlib/extract.py from /tmp/seedcheck-20768 -- do not edit
+// GENERATED on every run by vlib/extract.py from /repo -- do not edit
 #![allow(unused_imports, unused_variables, unused_mut, dead_code, unused_parens, unused_braces, non_snake_case)]
 use vstd::prelude::*;
 use core::cmp::Ordering;
@@ -536,7 +536,7 @@ pub fn x_is_one_of2(s: &str, a: &str, b: &str) -> (r: bool)
 
 /// `write!(w, "{}", d).unwrap()` on a String: appends the text (fmt::Write for String never fails)
 #[verifier::external_body]
-pub fn x_write_display(w: &mut String, d: &str)
+pub fn x_push_display(w: &mut String, d: &str)
     ensures final(w)@ == old(w)@ + d@
 { use std::fmt::Write; write!(w, "{}", d).unwrap() }
 
@@ -587,7 +587,7 @@ if !(x_is_one_of3(segment, "", ".", "..")) {
         if !rebuilt.is_empty() {
             rebuilt.push('/');
         }
-        x_write_display(&mut rebuilt, &decoded);
+        x_push_display(&mut rebuilt, &decoded);
     }
 }
     
@@ -633,7 +633,7 @@ if !(segment.is_empty()) {
         if !rebuilt.is_empty() {
             rebuilt.push('/');
         }
-        x_write_display(&mut rebuilt, &decoded);
+        x_push_display(&mut rebuilt, &decoded);
     }
 }
     
